@@ -395,3 +395,79 @@ def table_f(ctx, run):
         if table.setdefault(data, a == "Y") != (a == "Y"):
             return None  # not a deterministic test
     return lambda c: table.get(c)  # None = never asked: some deterministic test accepts it
+
+
+# ------------------------------------------------------------------ C13 oracles
+def rm_atoms(tc, idxs):
+    """delete the reducible atoms with the given ranks"""
+    parts, red, r = [], [], 0
+    for p, f in zip(tc[1], tc[2]):
+        if f:
+            if r not in idxs:
+                parts.append(p)
+                red.append(True)
+            r += 1
+        else:
+            parts.append(p)
+            red.append(False)
+    return (tc[0], parts, red, tc[3])
+
+
+def bracket_diff(p):
+    return (p.count(b"{") - p.count(b"}"), p.count(b"[") - p.count(b"]"), p.count(b"(") - p.count(b")"))
+
+
+def partner(parts, i):
+    n = bracket_diff(parts[i])
+    if n == (0, 0, 0):
+        return None
+    for j in range(i + 1, len(parts)):
+        d = bracket_diff(parts[j])
+        n = tuple(a + b for a, b in zip(n, d))
+        if min(n) < 0:
+            return None
+        if n == (0, 0, 0):
+            return j
+    return None
+
+
+def make_oracle_c13(f_of):
+    def orc(ck, ctx, run):
+        st = ctx["strategy"]
+        if st not in ("minimize-around", "minimize-balanced") or run.exc is not None or not run.seen \
+                or run.seen[0][2] != "Y":
+            return
+        cfg = ctx["cfg"]
+        if cfg.get("min", 1) != 1 or cfg.get("repeat", "last") == "never" or cfg.get("limit") is not None \
+                or cfg.get("move"):
+            return
+        f = f_of(ctx, run)
+        if f is None:
+            return
+        final = run.last if run.last is not None else ctx["tc"]
+        n = tc_len(final)
+        if st == "minimize-around":
+            for i in range(1, n - 1):
+                c = content(rm_atoms(final, {i - 1, i + 1}))
+                if f(c) is not False:
+                    ck.violation(f"minimize-around stopped although deleting the neighbours of atom {i} "
+                                 f"({c!r}) is not known to be rejected", replay_doc(ctx, run, atom=i))
+                    return
+        else:
+            if not all(final[2]) or n < 2:
+                return
+            for i in range(n):
+                if bracket_diff(final[1][i]) == (0, 0, 0):
+                    c = content(rm_atoms(final, {i}))
+                    what = f"balanced atom {i}"
+                else:
+                    j = partner(final[1], i)
+                    if j is None:
+                        continue
+                    c = content(rm_atoms(final, {i, j}))
+                    what = f"atom {i} with its partner {j}"
+                if f(c) is not False:
+                    ck.violation(f"minimize-balanced stopped although deleting {what} ({c!r}) is not known "
+                                 f"to be rejected", replay_doc(ctx, run, atom=i))
+                    return
+    return orc
